@@ -195,6 +195,12 @@ class SqliteStateStore(Generic[MODEL_T]):
 
     async def set_state(self, state: MODEL_T) -> None:
         """Replace or merge into the current state model."""
+        # Serialize with edit_state(): a replace that slips in while an edit block
+        # is suspended would be overwritten when that block writes back.
+        async with self._lock:
+            self._set_state_unlocked(state)
+
+    def _set_state_unlocked(self, state: MODEL_T) -> None:
         conn = self._connect()
         try:
             cursor = conn.cursor()
